@@ -104,6 +104,19 @@ def siblings(cfg):
             v[i] = v[i] * 2 if v[i] else 8
             opts.append(("c8", v))
         opts.append(("c8", [2 * x for x in c0["c8"]]))      # the whole cost vector rescaled (same schedule, other units)
+        for i in range(4):
+            if c0["c8"][i] >= 2 and c0["c8"][i] % 2 == 0:
+                v = list(c0["c8"])
+                v[i] //= 2                                    # and one cost halved (a table built for a LARGER cost comes first)
+                opts.append(("c8", v))
+        for i in (0, 1):                                      # a step cost changed by a large factor, both directions
+            v = list(c0["c8"])
+            v[i] *= 8
+            opts.append(("c8", v))
+            if c0["c8"][i] >= 8:
+                v = list(c0["c8"])
+                v[i] //= 8
+                opts.append(("c8", v))
     out = []
     for k, v in opts:
         c = dict(c0)
